@@ -275,6 +275,7 @@ def oriented_task(kind, deriv, timeout=600, max_paths=3000, base=None, sort='rea
     from pysym.core import Stub
     it.stubs['float_to_int'] = Stub(trunc_stub, 'float -> int store: truncation toward zero (finite values)')
     ex = Explorer([z3.And(v >= -bound, v <= bound) for v in ts.zvars], max_paths=max_paths)
+    ex.slice_feasibility = True          # rings have disjoint coordinates: a ring's sign conditions do not depend on the other rings' literals
     it.explorer = ex
     nq = 0
     viol = None
